@@ -1,7 +1,12 @@
 /-
+C13 (REGRESSION ONLY) — the patch machine as it was BEFORE fix 21b5229: `apply_patches` and
+`apply_monkey_patches` restore the value `getattr` RESOLVED (not what the target itself held) and the
+entry loop of `apply_monkey_patches` runs before its `try`.  Used only by the regression examples
+in Props/C13.lean (`old_capture_leaks`, `old_entry_fault_leaks`).  The current model is Model/C13.lean.
+
+Original header:
 C13 — conversion leaves the host process as it found it: executable model of the patch
-machine (core Lean only), the code AFTER fix 21b5229.  (The machine before the fix is kept in
-Model/C13Old.lean for the regression examples.)
+machine (core Lean only).
 
 World.  `own t a` is the own-attribute table (`vars(t)[a]`) of target `t` (a module or a
 class); the hierarchy `H` gives for every target its MRO (the target itself first) and says
@@ -15,51 +20,50 @@ whether it is a class (descriptors are only invoked on classes).  `lookup` is Py
     try:
         for s in specs:
             tgt  = _resolve(s.target)                       -- fault `resolve`
-            orig = getattr(tgt, s.attr, _MISSING)           -- handed to make_value
-            own  = _own_attr(tgt, s.attr)                   -- vars(tgt)[attr] or _MISSING: what is put back
+            orig = getattr(tgt, s.attr, _MISSING)
             new  = s.value | s.make_value(orig or None)     -- fault `make`
             setattr(tgt, s.attr, new)                       -- fault `set`
-            applied.append((tgt, s.attr, own))
+            applied.append((tgt, s.attr, orig))
         yield                                               -- body (may raise)
     finally:
-        for tgt, attr, own in reversed(applied):
-            if own is _MISSING: try delattr(tgt, attr) except: pass
-            else: setattr(tgt, attr, own)
+        for tgt, attr, orig in reversed(applied):
+            if orig is _MISSING: try delattr(tgt, attr) except: pass
+            else: setattr(tgt, attr, orig)
 
 `apply_monkey_patches` (jax2onnx/plugins/plugin_system.py) with the refcounted `_PATCH_STATE`:
 
     touched = []
-    try:
-        for (patch_fn, tgt, attr) in registry:              -- entry loop, now INSIDE the try
-            st = _PATCH_STATE.get((tgt, attr))
-            if st is None:
-                orig = getattr(tgt, attr)                   -- AttributeError if missing
-                own  = _own_attr(tgt, attr)
-                new  = patch_fn(orig)                       -- fault `make`
-                setattr(tgt, attr, new)                     -- fault `set`
-                _PATCH_STATE[key] = {orig, own, count: 1}
-            else: st.count += 1
-            touched.append(key)
-        yield
+    for (patch_fn, tgt, attr) in registry:                  -- ENTRY LOOP, *before* the try
+        st = _PATCH_STATE.get((tgt, attr))
+        if st is None:
+            orig = getattr(tgt, attr)                       -- AttributeError if missing
+            new  = patch_fn(orig)                           -- fault `make`
+            setattr(tgt, attr, new)                         -- fault `set`
+            _PATCH_STATE[key] = {orig, count: 1}
+        else: st.count += 1
+        touched.append(key)
+    try: yield
     finally:
         for key in reversed(touched):
             st = _PATCH_STATE.get(key)
             if not st: continue
             st.count -= 1
-            if st.count == 0:
-                delattr(tgt, attr) if st.own is _MISSING else setattr(tgt, attr, st.own)
-                _PATCH_STATE.pop(key)
+            if st.count == 0: setattr(tgt, attr, st.orig); _PATCH_STATE.pop(key)
 
 Programs (`Prog`) nest these contexts arbitrarily (`_activate_plugin_worlds` = monkey, then one
 `patches` per leaf plugin; function bodies re-activate the same stack during lowering), with
 `raise` as an exception in user code / tracing / lowering and `catch` for the
 `try … except Exception` around nested plugin bindings.
 
-Unwinding steps themselves are assumed not to raise (`setattr` of a value that was there before,
-`delattr` of an attribute that was just set).  `_own_attr` falls back to `getattr` for targets
-without `__dict__`; targets here are modules and classes.
+The run carries two *monitors* that do not influence it:
+  `good`    — every patch was applied to a key that, at that moment, had an own plain
+              (non-descriptor) value, or (apply_patches only) was missing on the whole MRO;
+              every `_PATCH_STATE` entry met has count ≥ 1
+  `entryOk` — no exception was raised inside the entry loop of `apply_monkey_patches`
+They are the hypotheses of the restoration theorem (Props/C13.lean).
+Unwinding steps themselves are assumed not to raise (`setattr` of a value that was there before).
 -/
-namespace J2O.C13
+namespace J2O.C13Old
 
 abbrev Tgt := Nat
 abbrev Attr := Nat
@@ -82,14 +86,16 @@ structure Hier where
   mro : Tgt → List Tgt
   isClass : Tgt → Bool
 
+/-- every MRO starts with the target itself -/
+def Hier.SelfFirst (H : Hier) : Prop := ∀ t, ∃ rest, H.mro t = t :: rest
+
 abbrev Own := Tgt → Attr → Option Val
-/-- `_PATCH_STATE`: key ↦ (orig as resolved by getattr, own entry or missing, reference count) -/
-abbrev PS := Tgt → Attr → Option (Val × Option Val × Nat)
+abbrev PS := Tgt → Attr → Option (Val × Nat)
 
 def setOwn (o : Own) (t : Tgt) (a : Attr) (v : Option Val) : Own :=
   fun t' a' => if t' = t ∧ a' = a then v else o t' a'
 
-def setPS (p : PS) (t : Tgt) (a : Attr) (v : Option (Val × Option Val × Nat)) : PS :=
+def setPS (p : PS) (t : Tgt) (a : Attr) (v : Option (Val × Nat)) : PS :=
   fun t' a' => if t' = t ∧ a' = a then v else p t' a'
 
 /-- first own entry along a list of targets -/
@@ -139,15 +145,23 @@ structure St where
   own : Own
   ps : PS
 
-/-- every `_PATCH_STATE` entry has a positive reference count (entries are removed at 0) -/
-def PSwf (p : PS) : Prop := ∀ t a orig own c, p t a = some (orig, own, c) → 1 ≤ c
+/-- the key has an own plain value, or is missing on the whole MRO -/
+def goodKey (H : Hier) (o : Own) (t : Tgt) (a : Attr) (allowMissing : Bool) : Bool :=
+  match o t a with
+  | some v => decide (descGet H t v = v)
+  | none => allowMissing && (firstOwn o a (H.mro t)).isNone
+
+def SpecKind.plain (H : Hier) (t : Tgt) : SpecKind → Bool
+  | .assign v => decide (descGet H t v = v)
+  | .monkey _ => true
 
 /-! ### apply_patches -/
 
 structure EnterRes where
   own : Own
-  applied : List (Tgt × Attr × Option Val)   -- stack: head = last applied; third = OWN entry before
+  applied : List (Tgt × Attr × Option Val)   -- stack: head = last applied
   raised : Bool
+  good : Bool
 
 /-- is an exception injected while this spec is applied (before anything is mutated)?
     `make` only exists for MonkeyPatchSpec. -/
@@ -163,18 +177,19 @@ def Spec.newVal (s : Spec) (orig : Option Val) : Val :=
   | .monkey k => mkWrap k orig
 
 /-- the entry loop; `acc` = what was applied so far (head = most recent) -/
-def enter (H : Hier) (o : Own) : List Spec → List (Tgt × Attr × Option Val) → EnterRes
-  | [], acc => ⟨o, acc, false⟩
-  | s :: rest, acc =>
-    if s.faults then ⟨o, acc, true⟩
+def enter (H : Hier) (o : Own) : List Spec → List (Tgt × Attr × Option Val) → Bool → EnterRes
+  | [], acc, g => ⟨o, acc, false, g⟩
+  | s :: rest, acc, g =>
+    if s.faults then ⟨o, acc, true, g⟩
     else
       enter H (setOwn o s.tgt s.attr (some (s.newVal (lookup H o s.tgt s.attr)))) rest
-        ((s.tgt, s.attr, o s.tgt s.attr) :: acc)
+        ((s.tgt, s.attr, lookup H o s.tgt s.attr) :: acc)
+        (g && goodKey H o s.tgt s.attr true && s.kind.plain H s.tgt)
 
-/-- the `finally` block: put back, in reverse order, what each target itself held -/
+/-- the `finally` block: restore in reverse order of application -/
 def unwind (o : Own) : List (Tgt × Attr × Option Val) → Own
   | [] => o
-  | (t, a, own) :: rest => unwind (setOwn o t a own) rest
+  | (t, a, orig) :: rest => unwind (setOwn o t a orig) rest
 
 /-! ### apply_monkey_patches -/
 
@@ -182,24 +197,26 @@ structure MEnterRes where
   st : St
   touched : List (Tgt × Attr)               -- stack: head = last touched
   raised : Bool
+  good : Bool
 
-/-- the entry loop; `faults` are aligned with the registry -/
-def menter (H : Hier) (st : St) : List Site → List Fault → List (Tgt × Attr) → MEnterRes
-  | [], _, acc => ⟨st, acc, false⟩
-  | s :: rest, fs, acc =>
+/-- the entry loop (runs before the `try`); `faults` are aligned with the registry -/
+def menter (H : Hier) (st : St) : List Site → List Fault → List (Tgt × Attr) → Bool → MEnterRes
+  | [], _, acc, g => ⟨st, acc, false, g⟩
+  | s :: rest, fs, acc, g =>
+    let f := fs.headD .none
     match st.ps s.tgt s.attr with
-    | some (orig, own, c) =>
-      menter H ⟨st.own, setPS st.ps s.tgt s.attr (some (orig, own, c + 1))⟩ rest fs.tail
-        ((s.tgt, s.attr) :: acc)
+    | some (orig, c) =>
+      menter H ⟨st.own, setPS st.ps s.tgt s.attr (some (orig, c + 1))⟩ rest fs.tail
+        ((s.tgt, s.attr) :: acc) (g && decide (1 ≤ c))
     | none =>
       match lookup H st.own s.tgt s.attr with
-      | none => ⟨st, acc, true⟩                             -- getattr raises AttributeError
+      | none => ⟨st, acc, true, g⟩                          -- getattr raises AttributeError
       | some orig =>
-        if fs.headD .none = .none then
+        if f = .none then
           menter H ⟨setOwn st.own s.tgt s.attr (some (.wrap s.k orig)),
-                    setPS st.ps s.tgt s.attr (some (orig, st.own s.tgt s.attr, 1))⟩ rest fs.tail
-            ((s.tgt, s.attr) :: acc)
-        else ⟨st, acc, true⟩                                -- patch_fn / setattr raises
+                    setPS st.ps s.tgt s.attr (some (orig, 1))⟩ rest fs.tail
+            ((s.tgt, s.attr) :: acc) (g && goodKey H st.own s.tgt s.attr false)
+        else ⟨st, acc, true, g⟩                             -- patch_fn / setattr raises
 
 /-- the `finally` block -/
 def mexit (st : St) : List (Tgt × Attr) → St
@@ -207,9 +224,9 @@ def mexit (st : St) : List (Tgt × Attr) → St
   | (t, a) :: rest =>
     match st.ps t a with
     | none => mexit st rest
-    | some (orig, own, c) =>
-      if c - 1 = 0 then mexit ⟨setOwn st.own t a own, setPS st.ps t a none⟩ rest
-      else mexit ⟨st.own, setPS st.ps t a (some (orig, own, c - 1))⟩ rest
+    | some (orig, c) =>
+      if c - 1 = 0 then mexit ⟨setOwn st.own t a (some orig), setPS st.ps t a none⟩ rest
+      else mexit ⟨st.own, setPS st.ps t a (some (orig, c - 1))⟩ rest
 
 /-! ### programs -/
 
@@ -225,25 +242,32 @@ inductive Prog where
 structure Res where
   st : St
   raised : Bool
+  good : Bool       -- monitor: all patched keys were good (see header)
+  entryOk : Bool    -- monitor: no exception inside an entry loop of apply_monkey_patches
 
 def run (H : Hier) (reg : List Site) : Prog → St → Res
-  | .skip, st => ⟨st, false⟩
-  | .raise, st => ⟨st, true⟩
+  | .skip, st => ⟨st, false, true, true⟩
+  | .raise, st => ⟨st, true, true, true⟩
   | .seq a b, st =>
     let r := run H reg a st
-    if r.raised then r else run H reg b r.st
+    if r.raised then r
+    else
+      let r2 := run H reg b r.st
+      ⟨r2.st, r2.raised, r.good && r2.good, r.entryOk && r2.entryOk⟩
   | .patches specs body, st =>
-    let e := enter H st.own specs []
-    if e.raised then ⟨⟨unwind e.own e.applied, st.ps⟩, true⟩
+    let e := enter H st.own specs [] true
+    if e.raised then ⟨⟨unwind e.own e.applied, st.ps⟩, true, e.good, true⟩
     else
       let r := run H reg body ⟨e.own, st.ps⟩
-      ⟨⟨unwind r.st.own e.applied, r.st.ps⟩, r.raised⟩
+      ⟨⟨unwind r.st.own e.applied, r.st.ps⟩, r.raised, e.good && r.good, r.entryOk⟩
   | .monkey faults body, st =>
-    let e := menter H st reg faults []
-    if e.raised then ⟨mexit e.st e.touched, true⟩          -- the entry loop is inside the try
+    let e := menter H st reg faults [] true
+    if e.raised then ⟨e.st, true, e.good, false⟩           -- NO unwinding: the loop is outside the try
     else
       let r := run H reg body e.st
-      ⟨mexit r.st e.touched, r.raised⟩
-  | .catch body, st => ⟨(run H reg body st).st, false⟩
+      ⟨mexit r.st e.touched, r.raised, e.good && r.good, r.entryOk⟩
+  | .catch body, st =>
+    let r := run H reg body st
+    ⟨r.st, false, r.good, r.entryOk⟩
 
-end J2O.C13
+end J2O.C13Old
